@@ -450,7 +450,12 @@ namespace xsimd
             return n & 7;
         }
 
+#ifdef XSIMD_VERIF_HOOKS
+        // verification hook: keep the scalar Payne-Hanek reduction out of line so that an IR-level checker can stub or analyse it separately
+        inline __attribute__((noinline)) std::int32_t __ieee754_rem_pio2(double x, double* y) noexcept
+#else
         XSIMD_INLINE std::int32_t __ieee754_rem_pio2(double x, double* y) noexcept
+#endif
         {
             static const std::int32_t two_over_pi[] = {
                 0xA2F983,
